@@ -1618,13 +1618,20 @@ func scenSnapshotVsInstall(e *engineA) error {
 	}
 	f := e.others(l)[e.rng.Intn(2)]
 	e.sleepHB(1, 2)
-	e.rc.emit(&ev.Rec{K: "fault", Op: "snapshot-held-after-capture", Nid: f.nid})
-	hit := e.pc.hold(f.dir, "snap.captured")
+	// held either right after the capture, or after the label was written
+	// to its temporary file and before it is renamed into place (the
+	// installation writes a label of its own meanwhile)
+	holdAt := "snap.captured"
+	if e.rng.Intn(3) == 0 {
+		holdAt = "snap.beforePublish"
+	}
+	e.rc.emit(&ev.Rec{K: "fault", Op: "snapshot-held-after-capture", Nid: f.nid, Note: holdAt})
+	hit := e.pc.hold(f.dir, holdAt)
 	go e.cl.takeSnapshot(f, 0)
 	select {
 	case <-hit:
 	case <-time.After(40 * e.hb()):
-		e.pc.release(f.dir, "snap.captured")
+		e.pc.release(f.dir, holdAt)
 		return fmt.Errorf("snapshot goroutine never reached the capture point")
 	}
 	e.isolate(f, true)
@@ -1642,11 +1649,16 @@ func scenSnapshotVsInstall(e *engineA) error {
 	linfo, _ := l.info(false)
 	e.rc.emit(&ev.Rec{K: "fault", Op: "heal-then-finish-old-snapshot", Nid: f.nid})
 	e.isolate(f, false)
-	e.waitFor(60, func() bool {
-		info, ok := f.info(false)
-		return ok && info.SnapshotIndex >= linfo.SnapshotIndex && linfo.SnapshotIndex > 0
-	})
-	e.pc.release(f.dir, "snap.captured")
+	if holdAt == "snap.captured" {
+		e.waitFor(60, func() bool {
+			info, ok := f.info(false)
+			return ok && info.SnapshotIndex >= linfo.SnapshotIndex && linfo.SnapshotIndex > 0
+		})
+	} else {
+		// (the installation itself waits behind the held publication)
+		e.sleepHB(4, 6)
+	}
+	e.pc.release(f.dir, holdAt)
 	e.sleepHB(2, 4)
 	for i := 0; i < 3; i++ {
 		e.cl.fsmOpPad(1, l, "update", pad)
